@@ -1,18 +1,18 @@
 SPECIFICATION Spec
 CONSTANTS
-  MaxStmts = 3
+  MaxStmts = 2
   MaxDepth = 3
   MaxUnits = 1
   MaxVar = 30
   UnitKinds <- SweepUnits
   ConKinds <- Empty
-  SpecKinds <- AllSpec
+  SpecKinds <- Empty
   SimpleV <- Set1
   DeclV <- DeclAll
   UseV <- UseAll
   FormatV <- Set1
-  CompV <- CompAll
-  TbindV <- TbindAll
+  CompV <- Set1
+  TbindV <- Set1
   NameChoices <- Set1
   EndForms <- Set1
   LabelStmts = FALSE
@@ -22,7 +22,7 @@ CONSTANTS
   InsSet <- InsSmall
   MinEdits = 0
   Randomised = FALSE
-  DumpMod = 150
+  DumpMod = 11
   NRepl = 17
   RichOnly = TRUE
   NeedStruct = FALSE
